@@ -495,6 +495,25 @@ func init() {
 					want = lint.Error
 				}
 				c19Lint(c, g, spec.DER(), "e_subject_contains_reserved_arpa_ip", want, "dNSName "+name)
+				if rng.Intn(2) == 0 {
+					// several reverse names of both zones in one SAN, in seeded order: each name is judged for itself
+					ips := []net.IP{ip}
+					for k := 1 + rng.Intn(2); k > 0; k-- {
+						ips = append(ips, c19RandAddr(rng))
+					}
+					rng.Shuffle(len(ips), func(a, b int) { ips[a], ips[b] = ips[b], ips[a] })
+					names := []string{"www.example.com"}
+					wantM := lint.Pass
+					for _, x := range ips {
+						names = append(names, arpaName(x))
+						if isRes(x) {
+							wantM = lint.Error
+						}
+					}
+					specM := gen.TLSLeaf(nb, names...)
+					c19Lint(c, g, specM.DER(), "e_subject_contains_reserved_arpa_ip", wantM, fmt.Sprintf("dNSNames %v", names[1:]))
+					c.R.Count("multi_arpa_certs", 1)
+				}
 			}
 		},
 		Finish: func(c *mon.Ctx, r *mon.Report, ev *mon.Evidence) []string {
